@@ -84,6 +84,10 @@ IsRefresh(e) ==
   /\ At(lastRd, e.p, [c |-> "none", v |-> ""]).v = e.v
   /\ At(built, e.p, "") # e.v
 
+IntendedTTL(e) ==
+  IF IsRefresh(e) THEN cfg.UpdTTL
+  ELSE IF At(cellOf, e.p, NoCell).has THEN At(cellOf, e.p, NoCell).c ELSE 0
+
 ---------------------------------------------------------------------------
 (* Guards per property; G(e) is evaluated in the state BEFORE the event.    *)
 
@@ -193,7 +197,10 @@ Upd(e) ==
                    /\ cnt' = IF IsRefresh(e) THEN [cnt EXCEPT !.refresh = @ + 1] ELSE cnt
               ELSE /\ stored' = Put(stored, e.k, At(stored, e.k, {}) \cup {e.v})
                    /\ bk' = IF cfg.NoOpBe THEN bk      \* cache.NoOp drops every write
-                            ELSE Put(bk, e.k, [v |-> e.v, e |-> ExpiryFor(e.ttl),
+                            \* how long the value STAYS FRESH is what the caller asked for (its TTL cell folded with the
+                                \* builder's hints; UpdateTTL for the temporary re-store), not what the write happened to carry
+                                \* - that the two agree is C06; a result that expires early makes the next build premature (C05)
+                            ELSE Put(bk, e.k, [v |-> e.v, e |-> ExpiryFor(IntendedTTL(e)),
                                                src |-> IF IsRefresh(e) THEN "refresh" ELSE "build"])
                    /\ cnt' = IF IsRefresh(e) THEN [cnt EXCEPT !.refresh = @ + 1, !.writes = @ + 1]
                                              ELSE [cnt EXCEPT !.writes = @ + 1]
